@@ -270,7 +270,8 @@ def gen_cases(ctx: Ctx):
             r.choice(["product", "product", "custom", "sequential"]), r.randrange(1, 4), r.choice(["", "", "dup", "one_list"]))
         k += 1
         c = gen_enc(r, mode, npar, fl)
-        c["scheds"] = pick_scheds(r, 2 if ctx.quick else 3, pickled=(1 if k % 2 == 0 else 0))
+        pk = 1 if k % 2 == 0 else 0          # every second case: one pickling member in place of an in-memory one
+        c["scheds"] = pick_scheds(r, (2 if ctx.quick else 3) - pk, pickled=pk)
         c["outputs"] = (k % 3 == 0)
         cases.append(c)
     # parameters whose short names collide (dimension names '<model>.<argument>'): every position pattern
